@@ -298,7 +298,7 @@ func glueTyped(dir string) (*typedInfo, error) {
 		sb.WriteString("},\n")
 	}
 	sb.WriteString("}\n\n")
-	sb.WriteString("// SimTypedNew builds one server and one client (and the webhook pair, if any) around the callbacks.\nfunc SimTypedNew(prefix string, cb func(ctx context.Context, op string, args []any, res any) error, ne func(ctx context.Context, err error, res any), fill func(context.Context, any), saw func(context.Context, any), hc ht.Client, eh func(context.Context, http.ResponseWriter, *http.Request, error), nf http.HandlerFunc, mna func(http.ResponseWriter, *http.Request, string), mws ...middleware.Middleware) (http.Handler, any, any, error) {\n")
+	sb.WriteString("// SimTypedNew builds one server and one client (and the webhook pair, if any) around the callbacks.\nfunc SimTypedNew(prefix string, cb func(ctx context.Context, op string, args []any, res any) error, ne func(ctx context.Context, err error, res any), fill func(context.Context, any), saw func(context.Context, any) error, hc ht.Client, eh func(context.Context, http.ResponseWriter, *http.Request, error), nf http.HandlerFunc, mna func(http.ResponseWriter, *http.Request, string), mws ...middleware.Middleware) (http.Handler, any, any, error) {\n")
 	if serverSec {
 		sb.WriteString("\tsrv, err := NewServer(&simTyped{cb: cb, ne: ne}, simSec{saw: saw}, WithMiddleware(mws...), WithErrorHandler(eh), WithPathPrefix(prefix), WithNotFound(nf), WithMethodNotAllowed(mna))\n")
 	} else {
